@@ -205,6 +205,9 @@ func (h *Hook) updateClient(cl *mqtt.Client) {
 			TopicAliasMaximum:     props.TopicAliasMaximum,
 			User:                  props.User,
 			MaximumPacketSize:     props.MaximumPacketSize,
+
+			SessionExpiryIntervalFlag: props.SessionExpiryIntervalFlag,
+			RequestProblemInfoFlag:    props.RequestProblemInfoFlag,
 		},
 		Will: storage.ClientWill(cl.Properties.Will),
 	}
